@@ -5,19 +5,21 @@ From V.Proofs Require Import TemplatesProofs UnstructProofs SrcObligationsGen.
 
 (* A customisation is consistent when the final keys of the handled attributes are
    pairwise distinct and no mandatory __init__ argument is omitted.  [val f] is the
-   value attribute f has on the instance; [hu] are the per-attribute unstructure
-   handlers (total), [hs_s] the structure handlers, inverse to them. *)
+   value attribute f has on the instance; [hs_u] are the per-attribute unstructure
+   handlers, [hu n (val f)] what they return on the instance's values, [hs_s] the structure
+   handlers, which undo them ON THESE VALUES (nothing is assumed about other inputs). *)
 
 (* 1. The generated unstructure hook emits EXACTLY the configured key set: the final key
       (rename, else alias under use_alias, else name) of every handled attribute, except
       those for which omit_if_default applies (per attribute, else converter-wide) and whose
       value equals the default.  Any class, any options and overrides, any instance. *)
 Theorem C09_exact_key_set :
-  forall (V : Type) (veq : V -> V -> bool) (opt : topts) (ov : N -> fov) (hu : N -> V -> V)
+  forall (V : Type) (veq : V -> V -> bool) (opt : topts) (ov : N -> fov) (hs_u : N -> V -> result V) (hu : N -> V -> V)
          (fs : list (field V)) (i : inst V) (val : field V -> V),
     (forall f, In f (filter (included V opt ov) fs) -> assoc i (f_name f) = Some (val f)) ->
     NoDup (map (key_of V opt ov) (filter (included V opt ov) fs)) ->
-    forall d, un_gen V veq opt ov (fun n v => Ok (hu n v)) fs i = Ok d ->
+    (forall f, In f (filter (included V opt ov) fs) -> hs_u (f_name f) (val f) = Ok (hu (f_name f) (val f))) ->
+    forall d, un_gen V veq opt ov hs_u fs i = Ok d ->
     forall k, In k (map fst d) <->
               exists f, In f (filter (included V opt ov) fs) /\ key_of V opt ov f = k /\ emitted V veq opt ov val f = true.
 Proof. intros. eapply un_gen_keys; eassumption. Qed.
@@ -25,13 +27,14 @@ Print Assumptions C09_exact_key_set.
 
 (* ... and it never fails on such an instance; its output is this dict: *)
 Theorem C09_unstructure_total :
-  forall (V : Type) (veq : V -> V -> bool) (opt : topts) (ov : N -> fov) (hu : N -> V -> V)
+  forall (V : Type) (veq : V -> V -> bool) (opt : topts) (ov : N -> fov) (hs_u : N -> V -> result V) (hu : N -> V -> V)
          (fs : list (field V)) (i : inst V) (val : field V -> V),
     (forall f, In f (filter (included V opt ov) fs) -> assoc i (f_name f) = Some (val f)) ->
     NoDup (map (key_of V opt ov) (filter (included V opt ov) fs)) ->
-    un_gen V veq opt ov (fun n v => Ok (hu n v)) fs i =
+    (forall f, In f (filter (included V opt ov) fs) -> hs_u (f_name f) (val f) = Ok (hu (f_name f) (val f))) ->
+    un_gen V veq opt ov hs_u fs i =
     Ok (lit_of V opt ov hu val (filter (included V opt ov) fs) ++ cnd_of V veq opt ov hu val (filter (included V opt ov) fs)).
-Proof. intros. now apply un_gen_exact. Qed.
+Proof. intros. eapply un_gen_exact; eassumption. Qed.
 Print Assumptions C09_unstructure_total.
 
 (* 2. The structure hook generated with the same customisation (either validation mode) accepts
@@ -41,7 +44,7 @@ Theorem C09_roundtrip_detailed :
   forall (V : Type) (K : N -> V -> result V) (veq : V -> V -> bool) (opt : topts) (ov : N -> fov)
          (hu : N -> V -> V) (fs : list (field V)) (val : field V -> V) (hs_s : N -> V -> result V),
     NoDup (map (key_of V opt ov) (filter (included V opt ov) fs)) ->
-    (forall n v, hs_s n (hu n v) = Ok v) ->
+    (forall f, In f (filter (included V opt ov) fs) -> hs_s (f_name f) (hu (f_name f) (val f)) = Ok (val f)) ->
     NoDup (map f_alias fs) -> NoDup (map f_name fs) ->
     (forall f, In f fs -> f_conv f = false) ->
     (forall a b, veq a b = true -> a = b) ->
@@ -65,7 +68,7 @@ Theorem C09_roundtrip_fast :
          (hu : N -> V -> V) (fs : list (field V)) (val : field V -> V) (hs_s : N -> V -> result V),
     wf V opt ov fs ->
     NoDup (map (key_of V opt ov) (filter (included V opt ov) fs)) ->
-    (forall n v, hs_s n (hu n v) = Ok v) ->
+    (forall f, In f (filter (included V opt ov) fs) -> hs_s (f_name f) (hu (f_name f) (val f)) = Ok (val f)) ->
     (forall f, In f fs -> f_conv f = false) ->
     (forall a b, veq a b = true -> a = b) ->
     (forall f, In f fs -> f_init f = true -> included V opt ov f = false -> f_dflt f <> None) ->
